@@ -256,6 +256,16 @@ def run(prop, tier):
                 V.violation("C16 export/import after history raised %s" % type(ex).__name__, dict(model=name, history=h["hist"], error=str(ex)[:300]))
         # pinned editing operations (whatever the sample of histories above contains): removing the third program of the effect row with the
         # explicit interaction outcome; removing a parameter with effects by its full name and by its code name
+        # zero-uncertainty sampling changes no value (the program set of this model carries no uncertainty other than the explicit 0 on the
+        # interaction row): the sampled object has the content of the original
+        try:
+            np.random.seed(C.seed())
+            pgs0 = pg0.sample()
+            records.append(dict(id=rid, kind="same", a=dg(progset_content(pg0)), b=dg(progset_content(pgs0))))
+            index[rid] = dict(label=dict(model=name, history=[["sample0", None]]), what="program set vs its zero-uncertainty sample (visible content)")
+            rid += 1
+        except Exception as ex:
+            V.violation("C16 sample0 raised %s" % type(ex).__name__, dict(model=name, error=str(ex)[:300]))
         pins = []
         if third_:
             pins.append(("remove_program", third_))
